@@ -582,3 +582,57 @@ def gen_chain_case(rng: random.Random):
         edges.append(dict(a=pos[k], b=pos[n - 1], sa='eo', da='t2', kind='p', shift=0, init=False))      # a short cut to the last relay
     grp = [[] for _ in range(n)] if rng.random() < 0.7 else [[0] for _ in range(n)]
     return dict(n=n, types=types, grp=grp, edges=edges, until=until, beh=beh, init=[], maxloop=100)
+
+
+def gen_weak_and_direct_case(rng: random.Random):
+    """a pair in one group joined in the SAME direction by a weak connection and by a plain one (made in either order, on
+    different slots), the plain one from a persistent attribute; dense outputs at every step, no explicit output times; an
+    optional third simulator in or outside the group.  The consumer must wait for the producer's step of the same time
+    (the smaller of the two delays), whichever connection was made first and whoever was started first."""
+    n = rng.choice([2, 2, 3])
+    until = rng.randint(3, 5)
+    types = ['hybrid'] * n
+    grp = [[0], [0]] + ([[0]] if n == 3 and rng.random() < 0.5 else [[]] if n == 3 else [])
+    src, dst = (0, 1) if rng.random() < 0.5 else (1, 0)         # also with the consumer started first
+    weak = dict(a=src, b=dst, sa='eo', da='ti', kind='w', shift=0, init=False)
+    plain = dict(a=src, b=dst, sa='po', da='i', kind='p', shift=0, init=False)
+    edges = [weak, plain] if rng.random() < 0.6 else [plain, weak]
+    if n == 3:
+        edges.append(dict(a=dst, b=2, sa='po', da='i', kind='p', shift=0, init=False) if rng.random() < 0.5 else
+                     dict(a=2, b=src, sa='po', da='i', kind='p', shift=0, init=False))
+    beh = []
+    for i in range(n):
+        ss = {str(tt): tt + 1 for tt in range(until)}
+        outs = {f'{tt},{q}': [None, ['po', 'eo'] if (q == 0 and i == src and rng.random() < 0.6) else ['po']] for tt in range(until + 1) for q in range(3)}
+        beh.append({'type': 'hybrid', 'self_steps': ss, 'outputs': outs, 'default_output': [None, ['po']]})
+    return dict(n=n, types=types, grp=grp, edges=edges, until=until, beh=beh, init=[], maxloop=100)
+
+
+def gen_pingpong_case(rng: random.Random):
+    """a delayed ping-pong inside one group: A -> B (plain trigger), B -> A (weak trigger, sometimes through a relay); B
+    answers at once, A - stepped at a sub-step k >= 1 by the weak connection - announces its output for the NEXT time step.
+    Every time step has two or three sub-steps, so the loop settles at once, but the run lasts for more time steps than
+    max_loop_iterations: a sub-step counter that is not reset when time advances would trip the loop guard."""
+    relay = rng.random() < 0.3
+    n = 3 if relay else 2
+    bound = rng.choice([2, 3, 3, 4])
+    until = bound + rng.randint(2, 4)
+    types = ['event-based'] * n
+    grp = [[0] for _ in range(n)] if rng.random() < 0.7 else [[0, 0] for _ in range(n)]
+    edges = [dict(a=0, b=1, sa='eo', da='ti', kind='p', shift=0, init=False)]
+    if relay:
+        edges += [dict(a=1, b=2, sa='eo', da='ti', kind='p', shift=0, init=False), dict(a=2, b=0, sa='eo', da='ti', kind='w', shift=0, init=False)]
+    else:
+        edges += [dict(a=1, b=0, sa='eo', da='ti', kind='w', shift=0, init=False)]
+    step_ahead = rng.choice([1, 1, 2])
+    beh = []
+    for i in range(n):
+        base = [] if types[i] == 'event-based' else ['po']
+        outs = {}
+        for tt in range(until + 1):
+            for k in range(until + 3):
+                if i == 0: outs[f'{tt},{k}'] = [tt + step_ahead, base + ['eo']]       # (k counts A's steps at this time: its first one is a sub-step >= 1 from the second time step on)
+                else: outs[f'{tt},{k}'] = [None, base + ['eo']]
+        beh.append({'type': types[i], 'self_steps': {}, 'outputs': outs, 'default_output': [None, base]})
+    init = [[0, 0]] if types[0] == 'event-based' else []
+    return dict(n=n, types=types, grp=grp, edges=edges, until=until, beh=beh, init=init, maxloop=bound, loop_len=1)
